@@ -21,7 +21,8 @@ ref: ["n", name] | ["e", python-source]
 A body is a list of nodes.
 
 Printers: syntax in {'dtml', 'ssi', 'epfs'}; `style` is a dict
-    ws      0: one blank, 1: two blanks, 2: newline, 3: trailing blank
+    ws      0: one blank, 1: two blanks, 2: newline, 3: trailing blank,
+            4: tab, 5: CR LF, 6: form feed, 7: CR, 8: vertical tab, 9: \x1f
     quote   0: a=b where possible, 1: a="b"
     endarg  0: bare end tag, 1: end tag repeats the name argument
     ssiend  0: <!--#/tag-->, 1: <!--#endtag-->
@@ -47,7 +48,9 @@ def E(src):
 
 
 def _sep(style):
-    return (' ', '  ', '\n', ' ')[style.get('ws', 0)]
+    # 4..9: the other characters the tag grammar counts as white space
+    return (' ', '  ', '\n', ' ', '\t', '\r\n', '\x0c', '\r', '\x0b',
+            '\x1f')[style.get('ws', 0)]
 
 
 def _ref(ref, style, attr='name'):
